@@ -211,6 +211,7 @@ def gen_cases(tier, seed):
         d['data_b64'] = base64.b64encode(c['data']).decode()
         d['cli'] = (i % (12 if tier == 'quick' else 6) == 0)
         d['want_sample'] = i % 90 == 0
+        d['timeout'] = 50
         out.append(d)
     for tag, b in EXTRA:
         out.append({'shape': 'extra.' + tag, 'encoding': 'extra', 'cookie': None, 'newline': 'mixed', 'data_b64': base64.b64encode(b).decode(), 'cli': True})
